@@ -200,7 +200,7 @@ echs_instant_diff(echs_instant_t end, echs_instant_t beg)
 		extra_df += doy_end - doy_beg;
 	}
 
-	return (echs_idiff_t){extra_df * MSECS_PER_DAY + intra_df};
+	return (echs_idiff_t){(int64_t)extra_df * (int64_t)MSECS_PER_DAY + intra_df};
 }
 
 echs_instant_t
